@@ -49,6 +49,10 @@ def run(ck: Checker, prog: Program, tier: str):
         ck.guard(c06._r6_outer, ck, prog, prog.func(c06.INNER), prog.func(c06.OUTER))
     # "that window does not enter the resonance statistics": an absent peak is NaN and the estimators give NaN entries no
     # weight (estimator rules of C05)
+    # an object read from file reports the peak of the range stored with it (reader rule of C12)
+    from . import c12
+    with ck.borrow(c12, "C08.R3+"):
+        ck.guard(c12._r5, ck, prog.func(c12.R))
     from . import c05
     with ck.borrow(c05, "C08.R2+"):
         ck.guard(S.check_estimators, ck, prog, "C05.R3")
